@@ -6,9 +6,9 @@ CONSTANTS
   MaxExtra = 1
   ReqSetIds = {"mixed"}
   PathValIds = {"i2", "s2"}
-  VarLeaves = {"name", "parent", "inner.name", "inner.kind"}
+  VarLeaves = {"name", "parent", "inner.name", "inner.kind", "opt_s"}
   Numerics = {FALSE, TRUE}
-  RespTypes = {"A"}
+  RespTypes = {"A", "P"}
   ReplyIds = {"full"}
   Calls = 1
   Mutant = "none"
